@@ -19,6 +19,8 @@ static std::string seqstr(const std::vector<T> &v) {
       if (std::isnan(d)) r += "nan";
       else if (std::isinf(d)) r += d > 0 ? "+inf" : "-inf";
       else if (d == 0 && std::signbit(d)) r += "-0.0";
+      else if (d > 1.0 && d < 1.5) r += "1+ulp";
+      else if (d > 0 && d < 1e-300) r += "denorm";
       else r += std::to_string((int)d);
     } else {
       r += val(v[i]).get_str();
@@ -331,13 +333,15 @@ static void interp_cases(Harness &H) {
 
 static void run(Harness &H) {
   const double inf = std::numeric_limits<double>::infinity(), nan = std::numeric_limits<double>::quiet_NaN();
-  grid_cases<double>(H, "double", {-inf, -1.0, -0.0, 0.0, 1.0, 2.0, inf, nan}, H.thorough() ? 6 : 4);
+  // neighbours in the floating-point order (1 and 1+ulp, 0 and the smallest denormal) are strictly increasing: a comparison
+  // with a tolerance would refuse them
+  grid_cases<double>(H, "double", {-inf, -1.0, -0.0, 0.0, 5e-324, 1.0, std::nextafter(1.0, 2.0), 2.0, inf, nan}, H.thorough() ? 5 : 4);
   grid_cases<S>(H, "QP", {mki<S>(0), mki<S>(1), mki<S>(2)}, 5);
   support_cases(H);
   spline_cases<0>(H);
   spline_cases<1>(H);
   spline_cases<2>(H);
-  generator_cases<double>(H, "double", {0.0, 1.0, 2.0, nan}, H.thorough() ? 6 : 5);
+  generator_cases<double>(H, "double", {0.0, 1.0, std::nextafter(1.0, 2.0), 2.0, nan}, H.thorough() ? 6 : 5);
   generator_cases<S>(H, "QP", {mki<S>(0), mki<S>(1), mki<S>(2)}, H.thorough() ? 7 : 5);
   lincomb_cases(H);
   interp_cases<1>(H);
